@@ -852,6 +852,8 @@ func checkQueries(t fataler, fc *fontCase, f *sfnt.Font, which string, boxes []b
 	modelW := make([]float64, n)
 	var unionPDF rect.Rect
 	firstPDF := true
+	extraUnion := make([]rect.Rect, len(extraBoxMatrices))
+	extraSeen := make([]bool, len(extraBoxMatrices))
 	for i, g := range fc.glyphs {
 		gid := glyph.ID(i)
 		modelW[i] = g.width
@@ -909,7 +911,7 @@ func checkQueries(t fataler, fc *fontCase, f *sfnt.Font, which string, boxes []b
 				// the font matrix is an argument of this query: matrices that
 				// turn or shear the box (where the extreme of an output
 				// coordinate comes from the lower-right or upper-left corner)
-				for _, X := range extraBoxMatrices {
+				for k, X := range extraBoxMatrices {
 					var gotX rect.Rect
 					if pn := guard.Try(func() { gotX = f.Outlines.GlyphBBoxPDF(X, gid) }); pn != nil {
 						fail("GlyphBBoxPDF(%v, %d): %s", X, i, pn)
@@ -917,6 +919,13 @@ func checkQueries(t fataler, fc *fontCase, f *sfnt.Font, which string, boxes []b
 					wantX, _ := corner.bounds(X.Mul(matrix.Scale(1000, 1000)), false)
 					if !nearRect(gotX, wantX) {
 						fail("Outlines.GlyphBBoxPDF(%v, %d) = %v, the glyph box %v under that matrix x 1000 has the bounds %v", X, i, gotX, want, wantX)
+					}
+					if !extraSeen[k] {
+						extraUnion[k], extraSeen[k] = wantX, true
+					} else {
+						u := &extraUnion[k]
+						u.LLx, u.LLy = math.Min(u.LLx, wantX.LLx), math.Min(u.LLy, wantX.LLy)
+						u.URx, u.URy = math.Max(u.URx, wantX.URx), math.Max(u.URy, wantX.URy)
 					}
 				}
 			}
@@ -942,6 +951,25 @@ func checkQueries(t fataler, fc *fontCase, f *sfnt.Font, which string, boxes []b
 	if !nearRect(fboxPDF, unionPDF) {
 		fail("FontBBoxPDF() = %v, the union of the glyph boxes is %v", fboxPDF, unionPDF)
 	}
+	if fc.kind == "glyf" {
+		// the font matrix of a TrueType font is the caller's to set (synthetic
+		// oblique, rotation): the font box is the union of the glyph boxes
+		// under that matrix, which is not the font box under that matrix
+		for k, X := range extraBoxMatrices {
+			if !extraSeen[k] {
+				continue
+			}
+			f2 := f.Clone()
+			f2.FontMatrix = X
+			var gotF rect.Rect
+			if pn := guard.Try(func() { gotF = f2.FontBBoxPDF() }); pn != nil {
+				fail("FontBBoxPDF with FontMatrix %v: %s", X, pn)
+			}
+			if !nearRect(gotF, extraUnion[k]) {
+				fail("FontBBoxPDF() with FontMatrix %v = %v, the union of the glyph boxes under that matrix x 1000 is %v", X, gotF, extraUnion[k])
+			}
+		}
+	}
 	wantFixed, either := modelFixedPitch(modelW)
 	if either {
 		*labels = append(*labels, "fixed-pitch-undetermined")
@@ -959,7 +987,7 @@ var extraBoxMatrices = []matrix.Matrix{
 	{0.000866, 0.0005, -0.0005, 0.000866, 0, 0},
 	{0.001, 0, -0.0003, 0.001, 0, 0},
 	{0.001, -0.0002, 0, 0.001, 0, 0},
-	{0.0008, -0.0006, 0.0006, 0.0008, 0.01, -0.02},
+	{0.0008, -0.0006, 0.0006, 0.0008, 0, 0},
 	{-0.001, 0, 0.0004, 0.001, 0, 0},
 }
 
